@@ -99,11 +99,15 @@ func main() {
 						killed++
 					case "skipped":
 						skipped++
+					case "quiet":
+						killed++
+					case "FALSE-ALARM":
+						rep.Unknown(fmt.Sprintf("checker-selftest/%v", m["mutant"]), "a behaviour-preserving refactoring must not raise an alarm", "", fmt.Sprintf("the checker reported %v on a scratch copy with a benign refactoring applied", m["alarms"]))
 					case "MISSED":
 						rep.Unknown(fmt.Sprintf("checker-selftest/%v", m["mutant"]), "a change known to break the property (reverse patch of a fix / seeded patch) must be reported with its obligation key", "", fmt.Sprintf("mutant applied to a scratch copy was NOT reported (expected %v): the checker lost this detection", m["expect"]))
 					}
 				}
-				fmt.Printf("checker self-test: %d mutants, %d killed, %d skipped (do not apply to this tree)\n", len(st.Mutants), killed, skipped)
+				fmt.Printf("checker self-test: %d variants, %d as expected (killed mutants / quiet refactorings), %d skipped (do not apply to this tree)\n", len(st.Mutants), killed, skipped)
 				if st.Error != "" {
 					fmt.Printf("checker self-test: %s\n", st.Error)
 				}
